@@ -94,18 +94,18 @@ def pathLinkSet (s : List Char) : Option Key :=
     | some canon => some (.ref canon)
     | none => none
 
-/-- path H-get (`GetCellHyperLink`): `SplitCellName` gate, direct decode, canonical
-re-encode, compared with the stored reference. -/
+/-- path H-get (`GetCellHyperLink`): `SplitCellName` gate, then `mergeCellsParser`
+(ASCII upper-casing, decoding, canonical re-encoding — and, on a sheet with merged
+cells, the redirection to the top-left cell of the range, where `SetCellHyperLink`
+stores the link; not modelled here); the result is compared with the stored
+reference. Since repo commit 6b4d3bc this is the same path as H-set. -/
 def pathLinkGet (s : List Char) : Option Key :=
   match splitCellName s with
   | .error _ => none
   | .ok _ =>
-    match cellNameToCoordinates s with
-    | .ok (c, r) =>
-      match coordinatesToCellName c r false with
-      | .ok canon => some (.ref canon)
-      | .error _ => none
-    | .error _ => none
+    match mergeParse s with
+    | some canon => some (.ref canon)
+    | none => none
 
 /-- path C-add (`AddComment` → `addComment`): direct decode, the comment is stored
 under the canonical reference of the cell. -/
